@@ -1,4 +1,5 @@
 import HgVerif.Model.MapNode
+import HgVerif.Model.MapNodeRef
 import HgVerif.Driver.Proto
 /-! Model driver for C10: same line protocol as `harness/drv_map.cpp`.
 
@@ -6,8 +7,14 @@ The map node itself (`MapNode.cycle`: entries, heap, candidates, loop, drains, r
 definition the theorems of `Props/C10.lean` are about.  The driver adds the bookkeeping of the
 surrounding graph only: the replayed dictionaries, the slot store of the key set (which slot a key
 gets, when a removed slot is erased), which children an input tick notifies, and the vocabulary of
-mapped functions as `Beh` instances. -/
+mapped functions as `Beh` instances.
+
+Reference-routed child outputs (`evenref`, `flagref`, `bflagref`, `swref`): which children exist and run is
+still `MapNode.cycle`; what the evaluated children do to their output elements (`RefOp`s, kept in the child
+state) and the owned output dictionary with its delta bookkeeping is `MapNodeRef.refCycle`, the definition the
+theorems of `Props/C10Ref.lean` are about. -/
 open HgVerif.MapNode HgVerif.Driver
+open HgVerif.MapNodeRef (RefOp RefIn refCycle)
 
 /-! ## vocabulary -/
 
@@ -34,6 +41,8 @@ structure CS where
   g : Option Int := none
   e : Option Int := none
   inner : List (Int × Int) := []
+  routed : Bool := false               -- reference-routed output: the terminal's reference is non-empty
+  ops : List (RefOp Int) := []         -- … and what the last evaluation did to the output element
 
 def kvGet (l : List (Int × Int)) (k : Int) : Option Int := (l.find? (·.1 == k)).map (·.2)
 def kvSet (l : List (Int × Int)) (k v : Int) : List (Int × Int) :=
@@ -47,6 +56,16 @@ def echoStep (K : Nat) (now : Nat) (i : Inp) (s : CS) : StepRes CS OV Int :=
     | none => { st := s, next := s.pend }
   else if s.pend == now then { st := { s with pend := MAX_DT }, out := some (.i s.echo), next := MAX_DT }
   else { st := s, next := s.pend }
+
+/-- `if_(cond, a).true` as the child's output: the reference follows the condition whenever the condition
+    input is valid; an unchanged non-empty reference does nothing, a new one samples its target -/
+def routeStep (cond : Option Int) (a : Option Int) (s : CS) : StepRes CS OV Int :=
+  match cond with
+  | none => { st := { s with ops := [] } }
+  | some f =>
+    match (if f != 0 then a else none) with
+    | some v => { st := { s with routed := true, ops := if s.routed then [] else [.bind v] } }
+    | none => { st := { s with routed := false, ops := [.clear] } }
 
 def sum2 (s : CS) : Int := (s.g.getD 0) + 1000000 * (s.e.getD 0)
 
@@ -97,6 +116,17 @@ def behOf (fn : String) : Beh Int CS Inp OV Int where
     | "pair" => match i.a, i.b with
       | some l, some r => if i.aTick || i.bTick then { st := s, out := some (.i (l + 1000 * r)) } else { st := s }
       | _, _ => { st := s }
+    | "evenref" => match i.aTick, i.a with
+      | true, some v => routeStep (some (if v % 2 == 0 then 1 else 0)) (some v) s
+      | _, _ => { st := { s with ops := [] } }
+    | "flagref" => routeStep i.b i.a s
+    | "bflagref" => routeStep i.z i.a s
+    | "swref" => match i.aTick, i.a with
+      -- switch_ on the element's own value mod 3; branch 2 never emits: the output keeps the old branch's value
+      | true, some v =>
+        let r := ((v % 3) + 3) % 3
+        { st := { s with ops := if r == 0 then [.bind v] else if r == 1 then [.bind (v + 1000)] else [] } }
+      | _, _ => { st := { s with ops := [] } }
     | "nest" =>
       -- inner map_(acc): one running sum per inner key, fresh after an inner remove + re-add
       let dels := i.nDels.filter fun j => (kvGet s.inner j).isSome
@@ -141,6 +171,7 @@ structure DS where
   errValid : Bool := false
   cycle : Nat := 0
   dead : Bool := false         -- an uncaptured child exception ended the run
+  rd : HgVerif.MapNodeRef.D Int Int := {}    -- reference-routed outputs: the owned output dictionary
 
 inductive Op where
   | set (k v : Int) | del (k : Int) | bset (k v : Int) | bdel (k : Int) | z (v : Int) | tick
@@ -211,11 +242,16 @@ def showErrVal (m : M Int CS OV Int) : String :=
 def slotOfStarted (m : M Int CS OV Int) (k : Int) : Option Nat :=
   (List.range m.cap).find? fun s => match m.ent s with | some e => e.started && e.key == k | none => false
 
+def isRef (fn : String) : Bool := ["evenref", "flagref", "bflagref", "swref"].contains fn
+
 def cycleStep (d : DS) (ops : List Op) : DS × String :=
   if d.bad then (d, "err:invalid-argument") else
   if d.dead then (d, "err:exception") else
   let cfg := d.cfg
-  let two := cfg.fn == "pair"
+  let two := cfg.fn == "pair" || cfg.fn == "flagref"
+  let bc := cfg.fn == "addb" || cfg.fn == "bflagref"
+  -- the element of `a` is only a REFERENCE input of these children: its ticks do not schedule them
+  let passiveA := cfg.fn == "flagref" || cfg.fn == "bflagref"
   let nested := cfg.fn == "nest"
   let now := d.cycle + 1
   -- ---- the replayed sources --------------------------------------------------------------------
@@ -267,9 +303,9 @@ def cycleStep (d : DS) (ops : List Op) : DS × String :=
   let added := addKeys.filterMap fun k => (ks2.slotOf k).map fun s => (s, k)
   let keysValid := aValid || bValid
   -- ---- who is notified ----------------------------------------------------------------------------
-  let touchedA := dedup (aSets.map (·.1) ++ aEffDels ++ nTouched)
+  let touchedA := if passiveA then [] else dedup (aSets.map (·.1) ++ aEffDels ++ nTouched)
   let touchedB := if two then dedup (bSets.map (·.1) ++ bEffDels) else []
-  let bcast := cfg.fn == "addb" && zTick
+  let bcast := bc && zTick
   let started0 := (List.range d.m.cap).filterMap fun s =>
     match d.m.ent s with | some e => if e.started then some (s, e.key) else none | none => none
   let notified := started0.filterMap fun p =>
@@ -283,7 +319,7 @@ def cycleStep (d : DS) (ops : List Op) : DS × String :=
       aTick := (aSets.any (·.1 == k)) || (nested && nTouched.contains k)
       b := if two then kvGet b1 k else none
       bTick := two && bSets.any (·.1 == k)
-      z := if cfg.fn == "addb" then z else none
+      z := if bc then z else none
       zTick := bcast
       nSets := (nSets.filter (·.1 == k)).map (·.2)
       nDels := (nDels.filter (·.1 == k)).map (·.2) }
@@ -296,11 +332,32 @@ def cycleStep (d : DS) (ops : List Op) : DS × String :=
   let r := HgVerif.MapNode.cycle (behOf cfg.fn) cfg.err d.m I
   let o := r.out
   if !o.ok then ({ d with dead := true }, "err:exception") else
+  -- ---- reference-routed outputs: the owned output dictionary --------------------------------------
+  let routedBefore := fun (k : Int) =>
+    started0.any fun p => p.2 == k && (match d.m.ent p.1 with | some e => e.st.routed | none => false)
+  let opsOf := fun (k : Int) =>
+    ((List.range r.m.cap).findSome? fun s =>
+      match r.m.ent s with | some e => if e.started && e.key == k then some e.st.ops else none | none => none).getD []
+  let RI : RefIn Int Int :=
+    { now := now
+      pre := if cfg.fn == "swref" then [] else aSets.filter fun kv => routedBefore kv.1
+      removed := o.stopped, added := o.startedK
+      evals := o.runs.map fun k => (k, opsOf k) }
+  let rd := if isRef cfg.fn then refCycle RI d.rd else d.rd
+  let allKeys := dedup (keys0 ++ keys1)
+  let refRem := allKeys.filter fun k => HgVerif.MapNodeRef.isRemoved rd now k
+  let refMod := keys1.filterMap fun k => (HgVerif.MapNodeRef.modifiedVal rd now k).map fun v => (k, OV.i v)
+  let o := if isRef cfg.fn then
+      { o with removedOut := refRem, modified := refMod, touched := o.touched || HgVerif.MapNodeRef.ticked rd now }
+    else o
   let outValid := d.outValid || o.touched
   let errTouched := !o.errs.isEmpty || !o.removedErr.isEmpty
   let errValid := d.errValid || errTouched
   let rec_ := if o.touched then showDelta o.removedOut o.modified showOVDelta else "-"
-  let val := if outValid then showVal r.m else "_"
+  let val := if !outValid then "_" else if isRef cfg.fn then
+      "{" ++ joinC ((sortInts keys1).map fun k =>
+        match (rd.slot k).val with | some v => s!"{k}={v}" | none => s!"{k}=_") ++ "}"
+    else showVal r.m
   let line := s!"rec={rec_} val={val} ev={showEvents cfg.key o.stopped o.startedK} run={showRuns cfg.key o.runs}" ++
     s!" act={activeCount r.m} cg={childGraphCount r.m}" ++
     (if cfg.err then
@@ -308,10 +365,11 @@ def cycleStep (d : DS) (ops : List Op) : DS × String :=
       s!" erec={erec} eval={if errValid then showErrVal r.m else "_"}"
      else "")
   ({ d with m := r.m, a := a1, b := b1, na := na1, aValid := aValid, bValid := bValid, z := z, ks := ks2,
-            outValid := outValid, errValid := errValid, cycle := d.cycle + 1 }, line)
+            outValid := outValid, errValid := errValid, cycle := d.cycle + 1, rd := rd }, line)
 
 def fnKnown (f : String) : Bool :=
-  ["inc", "acc", "addkey", "echo1", "echo2", "echo3", "echov", "even", "neg", "negecho", "addb", "pair", "nest"].contains f
+  ["inc", "acc", "addkey", "echo1", "echo2", "echo3", "echov", "even", "neg", "negecho", "addb", "pair", "nest",
+   "evenref", "flagref", "bflagref", "swref"].contains f
 
 def reset (d : DS) : DS := { cfg := d.cfg, bad := d.bad }
 
